@@ -62,15 +62,22 @@ int vs_getutid_r(const struct utmp *u, struct utmp *b, struct utmp **r) { int x 
 __attribute__((weak)) int vs_mutex_lock(pthread_mutex_t *m);
 __attribute__((weak)) int vs_mutex_unlock(pthread_mutex_t *m);
 static pthread_mutex_t model_of_libc_tz_lock = PTHREAD_MUTEX_INITIALIZER;
+#undef vs_point_user
+static void tz_window(long code) { if (vs_point_user) vs_point_user(code); }     /* a scheduling point inside the window; no counter: these are the right functions to call */
 void vs_tzset(void) {
-    if (vs_mutex_lock && vs_mutex_unlock) { vs_mutex_lock(&model_of_libc_tz_lock); tzset(); nr_point(40); vs_mutex_unlock(&model_of_libc_tz_lock); }
+    if (vs_mutex_lock && vs_mutex_unlock) { vs_mutex_lock(&model_of_libc_tz_lock); tzset(); tz_window(40); vs_mutex_unlock(&model_of_libc_tz_lock); }
     else tzset();
 }
 /* localtime_r() and strftime() run under the same libc lock (strftime() calls tzset() itself, which with TZ unset stats /etc/localtime - a system
  * call inside the window - on every call; localtime_r() loads the zone data on the first conversion of the process).  Same model: the lock is a
  * mutex of this file, with one scheduling point inside the window.  These are the RIGHT functions to call - no counter, only the window. */
-#undef vs_point_user
-static void tz_window(long code) { if (vs_point_user) vs_point_user(code); }
+/* getlogin_r(): where /proc/self/loginuid is absent (kernels without audit support) glibc searches utmp with its own reader, under libc's utmp lock and with
+ * file locking system calls inside - a lock fork() does not reset either.  The scheduler builds answer as that environment does. */
+static pthread_mutex_t model_of_libc_utmp_lock = PTHREAD_MUTEX_INITIALIZER;
+int vs_getlogin_r(char *buf, size_t n) {
+    if (vs_mutex_lock && vs_mutex_unlock) { vs_mutex_lock(&model_of_libc_utmp_lock); int r = getlogin_r(buf, n); tz_window(43); vs_mutex_unlock(&model_of_libc_utmp_lock); return r; }
+    return getlogin_r(buf, n);
+}
 struct tm *vs_localtime_r(const time_t *t, struct tm *r) {
     if (vs_mutex_lock && vs_mutex_unlock) { vs_mutex_lock(&model_of_libc_tz_lock); struct tm *x = localtime_r(t, r); tz_window(41); vs_mutex_unlock(&model_of_libc_tz_lock); return x; }
     return localtime_r(t, r);
